@@ -147,7 +147,7 @@ ADDENDA = {
  "C14": "Added: concurrent readers; cancel / coop_close hints longer than 256 bytes with multi-byte characters around byte 256.",
  "C15": "Added: redelivery, crashes inside the refund path, the maker's claim-invoice creation failing once (crash at every crossing).",
  "C16": "Added: scripted takers that answer the announcement once with something unusable and go silent, with and without a restart while the maker waits for the CSV.",
- "C17": "Added: the peer must be told whenever the request / agreement had been handed to the messenger (found and fixed 784803d).",
+ "C17": "Added: the peer must be told whenever the request / agreement had been handed to the messenger (found and fixed 784803d); histories in which the counterparty sends, in the middle of the wait, a well-formed message of this swap that the waiting state does not accept (announcement, coop_close, the other swap type's agreement) and then stays silent.",
  "C18": "Added: a third verdict shape (goroutine inside SendEvent blocked in peerswap's own channel/lock), watcher-liveness probes with a control watcher, lost announcements, transient backend errors.",
  "C19": "Added: policy readers vs editors, swap churn, timers becoming due together with messages of the same swap, watcher component worlds (Electrum, bitcoind, elementsd, lnd).",
  "C20": "Added: the real lnd tx watcher as fourth backend; header bursts with a slow consumer; an older header right after a late registration.",
